@@ -1,5 +1,63 @@
-(* C23 stub *)
+(* C23  The NTP packet decoder is total.
+   Decoding any byte string as an NTP packet, with no keys, with client session
+   keys or with the server's cookie keys, terminates with a packet or an error
+   and never panics.  Property theorems only; proofs are in Proofs/Packet.v.
+
+   The model (Model/ExtField.v, Model/Packet.v) is a total Gallina function;
+   every Rust panic site on the decode path (indexing and slicing, the
+   try_into().unwrap()s, unreachable!, expect) is an explicit [Panic site]
+   guarded by the same condition, and running out of the model's loop fuel is
+   a Panic as well, so "<> Panic" also says that the loops terminate within
+   the number of bytes present.  [cx] ranges over the three key contexts
+   (NoKeys | ClientKey k | ServerKeys keys id_offset); the AEAD decryption is an
+   arbitrary function [dec] (the only hypothesis: what it returns is a byte
+   string), so the theorem covers every cipher behaviour, including plaintexts
+   that are themselves malformed field sequences. *)
 From V Require Import Model.Packet Proofs.Packet.
+
+Theorem C23_total : forall (dec : oracle) (cx : ctx) (data : bytes),
+  wf_bytes data -> oracle_wf dec ->
+  forall site, deserialize dec cx data <> Panic site.
+Proof. exact deserialize_total. Qed.
+
+(* ... hence the result is a packet (accepted, or returned inside a decrypt
+   error) or an error class *)
+Theorem C23_packet_or_error : forall (dec : oracle) (cx : ctx) (data : bytes),
+  wf_bytes data -> oracle_wf dec ->
+  (exists o, deserialize dec cx data = Ok o) \/ (exists e, deserialize dec cx data = Err e).
+Proof. exact deserialize_outcome. Qed.
+
+(* the oracles used by the correspondence check (finite tables of genuine
+   encryptions) satisfy the hypothesis *)
+Theorem C23_table_oracles_wf : forall t,
+  forallb (fun e => wf_bytes_b (snd e)) t = true -> oracle_wf (table_dec t).
+Proof. exact table_dec_wf. Qed.
+
+(* the site census the model was written against still matches the sources *)
 Theorem C23_census : census_ok = true.
 Proof. exact census_holds. Qed.
+
+(* non-vacuity: a well-formed NTPv4 datagram with an NTS authenticator field,
+   decoded in the client-key context with an oracle that returns a plaintext
+   holding one unique-identifier field: accepted, the field is reported as
+   encrypted; the same datagram without keys is a decrypt error; a v5 datagram
+   in the server context without cookie is a decrypt error too *)
+Example C23_nonvacuous :
+  let data := 35 :: repeat 0 47 ++ [4; 4; 0; 28] ++ repeat 0 24 in
+  let dec : oracle := fun _ _ _ _ => Some [1; 4; 0; 8; 9; 9; 9; 9] in
+  wf_bytes data /\ oracle_wf dec /\
+  (exists p, deserialize dec (ClientKey [7]) data = Ok (Accept p None)
+             /\ encrypted (p_ef p) = [EfUid [9; 9; 9; 9]]) /\
+  (exists p, deserialize dec NoKeys data = Ok (DecryptFailed p)) /\
+  (exists p, deserialize dec (ServerKeys [repeat 1 64] 0) data = Ok (DecryptFailed p)).
+Proof.
+  cbv zeta. split; [apply wf_bytes_check; vm_compute; reflexivity|].
+  split; [intros k n a c p H; inversion H; subst; apply wf_bytes_check; vm_compute; reflexivity|].
+  split; [eexists; split; vm_compute; reflexivity|].
+  split; eexists; vm_compute; reflexivity.
+Qed.
+
+Print Assumptions C23_total.
+Print Assumptions C23_packet_or_error.
+Print Assumptions C23_table_oracles_wf.
 Print Assumptions C23_census.
